@@ -32,7 +32,8 @@ from .base import (
     event_from_json,
 )
 from ..config import Config
-from ..errors import StorageError
+from ..errors import StorageError, AuthenticationError
+from ..auth import Action
 
 
 # ids: b'\x00<32 bytes of id>'
@@ -681,6 +682,13 @@ class LMDBStorage(BaseStorage):
             raise StorageError("invalid: Bad JSON")
 
         await self.validate_event(event, Config)
+        # check authentication
+        # (events signed by the relay's own service key are internal: role assignments are stored that way)
+        is_internal = self.service_pubkey and event.pubkey == self.service_pubkey
+        if not is_internal and not await self.authenticator.can_do(
+            auth_token, Action.save.value, event
+        ):
+            raise AuthenticationError("restricted: permission denied")
 
         if not event.is_ephemeral:
             check_indexable(event)
